@@ -1,730 +1,22 @@
 package store
 
-import (
-	"bytes"
-	"errors"
-	"expvar"
-	"io"
-	"log"
-	"os"
-	"path/filepath"
-	"time"
-
-	"github.com/hashicorp/raft"
-	"github.com/rqlite/rqlite/v10/command"
-	"github.com/rqlite/rqlite/v10/command/chunking"
-	"github.com/rqlite/rqlite/v10/command/proto"
-	sql "github.com/rqlite/rqlite/v10/db"
-	"github.com/rqlite/rqlite/v10/snapshot"
-)
-
 // =============================================================================================
-// Shared world of C33 and C01b (kept identical in both directories): what store.RecoverNode and
-// (*Store).fsmApply are given.
+// C33: manual recovery keeps all applied data (limited claim; the shared world is in world.go).
 //
-// Interface models (ordinary Go, run natively and in the engine): raft.LogStore, raft.SnapshotStore
-// + raft.SnapshotSink, raft.Transport. Every call is recorded in a trace; any one of the calls can
-// be told to fail.
-//
-// The database is OUTSIDE the claim. It is represented by its contents as a list of "tags":
-//   * every log entry at position p carries a payload whose only effect is "append tag 1+p";
-//   * the existing snapshot holds the single tag vrMarker.
-// In the engine the functions of packages db / snapshot / os that RecoverNode calls are replaced
-// (spec "models") by an abstract database with exactly SQLite's WAL discipline at the granularity
-// needed here: Restore overwrites the main file; Process appends to the WAL of the open handle;
-// Checkpoint moves the WAL into the main file; a snapshot streamer captures the MAIN FILE of the
-// path it is given; Persist copies the stream into the sink.
-// Natively nothing is replaced: the payloads are real rqlite EXECUTE commands ("INSERT INTO vlog"),
-// the snapshot is a real rqlite snapshot stream of a real SQLite file, and the tags are read back
-// from the real snapshot that RecoverNode wrote into the sink. Both worlds therefore produce the
-// same observation - "the tags, in order, held by the new snapshot" - and the oracles speak about
-// that observation and about the interface trace only.
+// The real store.RecoverNode runs against the model log store / snapshot store / transport. The
+// oracle is written from the property statement:
+//   * the database is rebuilt from the NEWEST snapshot (and only that one is opened) ...
+//   * ... plus all command entries of the log after the snapshot's index, each once, ascending -
+//     observed as the tags held by the new snapshot RecoverNode writes into the sink (the snapshot's
+//     marker first, then one tag per command entry; nothing for entries the snapshot already
+//     covers, nothing for barrier / no-op / configuration entries);
+//   * exactly one new snapshot is created, at the (index, term) of the last log entry walked (the
+//     old snapshot's if the log holds nothing newer), carrying exactly the peers configuration,
+//     and it is finalized (sink closed without error, nothing written afterwards);
+//   * the log is compacted (whole range) and only after the sink was closed without error; a
+//     recovery that fails anywhere before that leaves the log alone and reports the failure;
+//   * a peers configuration without any voter is refused and nothing is touched.
 // =============================================================================================
-
-const vrMarker = 200 // the tag held by the pre-existing snapshot
-
-const (
-	vrEvList = iota
-	vrEvOpenSnap
-	vrEvLastIndex
-	vrEvGetLog
-	vrEvCreate
-	vrEvSinkWrite
-	vrEvSinkClose
-	vrEvSinkCancel
-	vrEvFirstIndex
-	vrEvDeleteRange
-)
-
-// failure points (vrWorld.fail)
-const (
-	vrFailNone = iota
-	vrFailList
-	vrFailOpenSnap
-	vrFailLastIndex
-	vrFailGetLog // the last GetLog the recovery has to make
-	vrFailCreate
-	vrFailSinkWrite
-	vrFailSinkClose
-	vrFailFirstIndex
-	vrFailDeleteRange
-	vrFailN
-)
-
-var vrErrInjected = errors.New("verif: injected failure")
-
-type vrEv struct {
-	kind int
-	a, b uint64
-	ok   bool
-}
-
-type vrEntry struct {
-	typ  raft.LogType
-	term uint64
-	data []byte
-}
-
-type vrCreate struct {
-	version   raft.SnapshotVersion
-	index     uint64
-	term      uint64
-	conf      raft.Configuration
-	confIndex uint64
-	trans     raft.Transport
-}
-
-type vrWorld struct {
-	dir  string
-	fail int
-	ev   []vrEv
-
-	// snapshot store: metas newest first (the contract of raft.SnapshotStore.List)
-	metas   []*raft.SnapshotMeta
-	opened  []string
-	snapRC  *vrSnapRC
-	creates []vrCreate
-	sink    *vrSink
-
-	// log store: ents[i] has index first+i; first is 0 when the log is empty
-	first    uint64
-	ents     []vrEntry
-	failAt   uint64 // index at which GetLog fails (vrFailGetLog)
-	getLogs  int
-	deleted  bool
-	delMin   uint64
-	delMax   uint64
-	delAfter bool // the sink had been closed without error when DeleteRange was called
-
-	tn raft.Transport
-
-	// engine-only abstract database
-	files    map[string][]int // main file contents, by path
-	wals     map[string][]int // WAL contents, by path
-	handles  map[*sql.SwappableDB]string
-	streams  map[*snapshot.SnapshotStreamer]*vrStream
-	removed  []string
-	badCalls int // calls of the database functions with arguments that make no sense
-}
-
-var vrW *vrWorld
-
-func (w *vrWorld) rec(kind int, a, b uint64, ok bool) {
-	w.ev = append(w.ev, vrEv{kind: kind, a: a, b: b, ok: ok})
-}
-
-func (w *vrWorld) last() uint64 {
-	if len(w.ents) == 0 {
-		return 0
-	}
-	return w.first + uint64(len(w.ents)) - 1
-}
-
-// ---------------------------------------------------------------------------------------------
-// raft.LogStore
-
-type vrLogStore struct{ w *vrWorld }
-
-func (l *vrLogStore) FirstIndex() (uint64, error) {
-	w := l.w
-	if w.fail == vrFailFirstIndex {
-		w.rec(vrEvFirstIndex, 0, 0, false)
-		return 0, vrErrInjected
-	}
-	w.rec(vrEvFirstIndex, w.first, 0, true)
-	return w.first, nil
-}
-
-func (l *vrLogStore) LastIndex() (uint64, error) {
-	w := l.w
-	if w.fail == vrFailLastIndex {
-		w.rec(vrEvLastIndex, 0, 0, false)
-		return 0, vrErrInjected
-	}
-	w.rec(vrEvLastIndex, w.last(), 0, true)
-	return w.last(), nil
-}
-
-func (l *vrLogStore) GetLog(index uint64, out *raft.Log) error {
-	w := l.w
-	w.getLogs++
-	if len(w.ents) == 0 || index < w.first || index > w.last() {
-		w.rec(vrEvGetLog, index, 0, false)
-		return raft.ErrLogNotFound
-	}
-	if w.fail == vrFailGetLog && index == w.failAt {
-		w.rec(vrEvGetLog, index, 0, false)
-		return vrErrInjected
-	}
-	w.rec(vrEvGetLog, index, 0, true)
-	e := w.ents[index-w.first]
-	out.Index = index
-	out.Term = e.term
-	out.Type = e.typ
-	out.Data = e.data
-	return nil
-}
-
-func (l *vrLogStore) StoreLog(*raft.Log) error    { panic("verif: StoreLog is not part of recovery") }
-func (l *vrLogStore) StoreLogs([]*raft.Log) error { panic("verif: StoreLogs is not part of recovery") }
-
-func (l *vrLogStore) DeleteRange(min, max uint64) error {
-	w := l.w
-	w.deleted = true
-	w.delMin, w.delMax = min, max
-	w.delAfter = w.sink != nil && w.sink.closedOK
-	if w.fail == vrFailDeleteRange {
-		w.rec(vrEvDeleteRange, min, max, false)
-		return vrErrInjected
-	}
-	w.rec(vrEvDeleteRange, min, max, true)
-	return nil
-}
-
-// ---------------------------------------------------------------------------------------------
-// raft.SnapshotStore, raft.SnapshotSink
-
-type vrSnapStore struct{ w *vrWorld }
-
-func (s *vrSnapStore) List() ([]*raft.SnapshotMeta, error) {
-	w := s.w
-	if w.fail == vrFailList {
-		w.rec(vrEvList, 0, 0, false)
-		return nil, vrErrInjected
-	}
-	w.rec(vrEvList, uint64(len(w.metas)), 0, true)
-	return w.metas, nil
-}
-
-func (s *vrSnapStore) Open(id string) (*raft.SnapshotMeta, io.ReadCloser, error) {
-	w := s.w
-	w.opened = append(w.opened, id)
-	if w.fail == vrFailOpenSnap {
-		w.rec(vrEvOpenSnap, 0, 0, false)
-		return nil, nil, vrErrInjected
-	}
-	for i, m := range w.metas {
-		if m.ID == id {
-			w.rec(vrEvOpenSnap, uint64(i), 0, true)
-			rc := &vrSnapRC{w: w, which: i}
-			if i == 0 {
-				rc.tags = []int{vrMarker}
-			} else {
-				rc.tags = []int{vrMarker + 1} // an older snapshot: a different state
-			}
-			if !verifSymbolic() {
-				rc.r = bytes.NewReader(vrNativeSnapshot(w.dir, rc.tags))
-			}
-			w.snapRC = rc
-			return m, rc, nil
-		}
-	}
-	w.rec(vrEvOpenSnap, 0, 0, false)
-	return nil, nil, errors.New("verif: no such snapshot")
-}
-
-func (s *vrSnapStore) Create(version raft.SnapshotVersion, index, term uint64, configuration raft.Configuration,
-	configurationIndex uint64, trans raft.Transport) (raft.SnapshotSink, error) {
-	w := s.w
-	w.creates = append(w.creates, vrCreate{version, index, term, configuration, configurationIndex, trans})
-	if w.fail == vrFailCreate {
-		w.rec(vrEvCreate, index, term, false)
-		return nil, vrErrInjected
-	}
-	w.rec(vrEvCreate, index, term, true)
-	w.sink = &vrSink{w: w}
-	return w.sink, nil
-}
-
-// vrSnapRC is the stream of an existing snapshot. Natively it yields a real snapshot stream; in the
-// engine only its identity and the tags it stands for matter (snapshot.Restore is a model).
-type vrSnapRC struct {
-	w      *vrWorld
-	which  int
-	tags   []int
-	r      *bytes.Reader
-	closed bool
-}
-
-func (r *vrSnapRC) Read(p []byte) (int, error) {
-	if r.r == nil {
-		return 0, io.EOF
-	}
-	return r.r.Read(p)
-}
-func (r *vrSnapRC) Close() error { r.closed = true; return nil }
-
-type vrSink struct {
-	w         *vrWorld
-	data      []byte
-	closes    int
-	closedOK  bool
-	cancelled bool
-	lateWrite bool
-}
-
-func (s *vrSink) Write(p []byte) (int, error) {
-	if s.closes > 0 || s.cancelled {
-		s.lateWrite = true
-	}
-	if s.w.fail == vrFailSinkWrite {
-		s.w.rec(vrEvSinkWrite, uint64(len(p)), 0, false)
-		return 0, vrErrInjected
-	}
-	s.w.rec(vrEvSinkWrite, uint64(len(p)), 0, true)
-	s.data = append(s.data, p...)
-	return len(p), nil
-}
-
-func (s *vrSink) Close() error {
-	s.closes++
-	if s.w.fail == vrFailSinkClose {
-		s.w.rec(vrEvSinkClose, 0, 0, false)
-		return vrErrInjected
-	}
-	s.w.rec(vrEvSinkClose, 0, 0, true)
-	if !s.cancelled {
-		s.closedOK = true
-	}
-	return nil
-}
-
-func (s *vrSink) ID() string { return "verif-new-snapshot" }
-
-func (s *vrSink) Cancel() error {
-	// raft's sinks tolerate Cancel after Close (RecoverNode defers it unconditionally)
-	s.w.rec(vrEvSinkCancel, 0, 0, true)
-	if s.closes == 0 {
-		s.cancelled = true
-	}
-	return nil
-}
-
-// vrTransport is never used by recovery beyond being handed to SnapshotStore.Create.
-type vrTransport struct{ raft.Transport }
-
-// ---------------------------------------------------------------------------------------------
-// payloads
-
-// vrData is the payload of the log entry at position p: "append tag 1+p".
-func vrData(p int) []byte {
-	if verifSymbolic() {
-		return []byte{0xC7, byte(1 + p)}
-	}
-	return vrNativeCommand(1 + p)
-}
-
-// vrTagOf decodes an engine payload (-1: not one of ours).
-func vrTagOf(data []byte) int {
-	if len(data) != 2 || data[0] != 0xC7 {
-		return -1
-	}
-	return int(data[1])
-}
-
-const vrCreateTable = "CREATE TABLE IF NOT EXISTS vlog (id INTEGER PRIMARY KEY AUTOINCREMENT, tag INTEGER)"
-
-func vrItoa(n int) string {
-	if n == 0 {
-		return "0"
-	}
-	var b []byte
-	for n > 0 {
-		b = append([]byte{byte('0' + n%10)}, b...)
-		n /= 10
-	}
-	return string(b)
-}
-
-func vrNativeCommand(tag int) []byte {
-	er := &proto.ExecuteRequest{Request: &proto.Request{Statements: []*proto.Statement{
-		{Sql: vrCreateTable},
-		{Sql: "INSERT INTO vlog(tag) VALUES(" + vrItoa(tag) + ")"},
-	}}}
-	b, compressed, err := command.NewRequestMarshaler().Marshal(er)
-	if err != nil {
-		panic(err)
-	}
-	out, err := command.Marshal(&proto.Command{Type: proto.Command_COMMAND_TYPE_EXECUTE, SubCommand: b, Compressed: compressed})
-	if err != nil {
-		panic(err)
-	}
-	return out
-}
-
-// vrNativeSnapshot builds a real rqlite snapshot stream of a SQLite file holding the tags.
-func vrNativeSnapshot(dir string, tags []int) []byte {
-	path := filepath.Join(dir, "verif-old-snapshot.db")
-	os.Remove(path)
-	db, err := sql.Open(path, false, false)
-	if err != nil {
-		panic(err)
-	}
-	stmts := []*proto.Statement{{Sql: vrCreateTable}}
-	for _, t := range tags {
-		stmts = append(stmts, &proto.Statement{Sql: "INSERT INTO vlog(tag) VALUES(" + vrItoa(t) + ")"})
-	}
-	rs, err := db.Execute(&proto.Request{Statements: stmts}, false)
-	if err != nil {
-		panic(err)
-	}
-	for _, r := range rs {
-		if r.GetError() != "" {
-			panic("verif: cannot fill the native snapshot database: " + r.GetError())
-		}
-	}
-	if err := db.Close(); err != nil {
-		panic(err)
-	}
-	st, err := snapshot.NewSnapshotStreamer(path)
-	if err != nil {
-		panic(err)
-	}
-	if err := st.Open(); err != nil {
-		panic(err)
-	}
-	b, err := io.ReadAll(st)
-	if err != nil {
-		panic(err)
-	}
-	st.Close()
-	os.Remove(path)
-	return b
-}
-
-// vrSnapshotTags: the observation. The tags, in order, held by a snapshot stream (ok=false: the
-// bytes are not a complete snapshot of a database).
-func vrSnapshotTags(w *vrWorld, b []byte) (tags []int, ok bool) {
-	if verifSymbolic() {
-		if len(b) < 2 || b[0] != 0x5A || int(b[1]) != len(b)-2 {
-			return nil, false
-		}
-		for _, t := range b[2:] {
-			tags = append(tags, int(t))
-		}
-		return tags, true
-	}
-	path := filepath.Join(w.dir, "verif-new-snapshot.db")
-	os.Remove(path)
-	defer os.Remove(path)
-	if _, err := snapshot.Restore(bytes.NewReader(b), path); err != nil {
-		return nil, false
-	}
-	db, err := sql.Open(path, false, false)
-	if err != nil {
-		return nil, false
-	}
-	defer db.Close()
-	rows, err := db.QueryStringStmt("SELECT tag FROM vlog ORDER BY id")
-	if err != nil || len(rows) != 1 {
-		return nil, false
-	}
-	if rows[0].GetError() != "" {
-		return nil, true // no table: nothing was ever applied
-	}
-	for _, v := range rows[0].Values {
-		tags = append(tags, int(v.Parameters[0].GetI()))
-	}
-	return tags, true
-}
-
-// ---------------------------------------------------------------------------------------------
-// engine-only abstract database (spec.json "models"); never called natively
-
-type vrStream struct {
-	payload []byte
-	off     int
-	opened  bool
-}
-
-func vrEncodeTags(tags []int) []byte {
-	b := []byte{0x5A, byte(len(tags))}
-	for _, t := range tags {
-		b = append(b, byte(t))
-	}
-	return b
-}
-
-func vrOsRemove(name string) error {
-	w := vrW
-	w.removed = append(w.removed, name)
-	delete(w.files, name)
-	delete(w.wals, name)
-	return nil
-}
-
-func vrRestore(r io.Reader, dstPath string) (int64, error) {
-	w := vrW
-	rc, ok := r.(*vrSnapRC)
-	if !ok || rc.closed {
-		w.badCalls++
-		return 0, errors.New("verif: not a snapshot stream")
-	}
-	w.files[dstPath] = append([]int{}, rc.tags...)
-	delete(w.wals, dstPath)
-	return 1, nil
-}
-
-func vrDefaultDriver() *sql.Driver { return nil }
-
-func vrOpenSwappable(dbPath string, drv *sql.Driver, fkEnabled, wal bool, maxROConns int) (*sql.SwappableDB, error) {
-	w := vrW
-	if !wal {
-		w.badCalls++ // rqlite databases are WAL-mode databases
-	}
-	if _, ok := w.files[dbPath]; !ok {
-		w.files[dbPath] = []int{}
-	}
-	h := new(sql.SwappableDB)
-	w.handles[h] = dbPath
-	return h, nil
-}
-
-func vrDBClose(db *sql.SwappableDB) error {
-	w := vrW
-	if _, ok := w.handles[db]; !ok {
-		w.badCalls++
-	}
-	delete(w.handles, db)
-	return nil
-}
-
-func vrDBCheckpoint(db *sql.SwappableDB, wr io.Writer, timeout time.Duration) (*sql.CheckpointManagerMeta, int64, error) {
-	w := vrW
-	path, ok := w.handles[db]
-	if !ok {
-		w.badCalls++
-		return nil, 0, errors.New("verif: checkpoint of a database that is not open")
-	}
-	w.files[path] = append(w.files[path], w.wals[path]...)
-	delete(w.wals, path)
-	return nil, 0, nil
-}
-
-func vrNewDechunkerManager(dir string) (*chunking.DechunkerManager, error) {
-	return new(chunking.DechunkerManager), nil
-}
-
-// vrProcess: what (*CommandProcessor).Process does with one of the harness payloads.
-func vrProcess(c *CommandProcessor, data []byte, db *sql.SwappableDB) (*proto.Command, bool, any) {
-	w := vrW
-	path, ok := w.handles[db]
-	tag := vrTagOf(data)
-	if !ok || tag < 0 {
-		w.badCalls++
-		panic("verif: Process called with something that is neither an open database nor a log payload")
-	}
-	w.wals[path] = append(w.wals[path], tag)
-	return &proto.Command{Type: proto.Command_COMMAND_TYPE_EXECUTE}, true, &fsmExecuteQueryResponse{}
-}
-
-func vrNewSnapshotStreamer(dbPath string, walPaths ...string) (*snapshot.SnapshotStreamer, error) {
-	w := vrW
-	tags, ok := w.files[dbPath]
-	if !ok {
-		return nil, errors.New("verif: no such database file")
-	}
-	if len(walPaths) != 0 {
-		w.badCalls++
-	}
-	st := new(snapshot.SnapshotStreamer)
-	w.streams[st] = &vrStream{payload: vrEncodeTags(tags)}
-	return st, nil
-}
-
-func vrStreamerOpen(st *snapshot.SnapshotStreamer) error {
-	vrW.streams[st].opened = true
-	return nil
-}
-
-func vrStreamerRead(st *snapshot.SnapshotStreamer, p []byte) (int, error) {
-	s := vrW.streams[st]
-	if !s.opened {
-		vrW.badCalls++
-		return 0, errors.New("verif: streamer is not open")
-	}
-	if s.off >= len(s.payload) {
-		return 0, io.EOF
-	}
-	n := copy(p, s.payload[s.off:])
-	s.off += n
-	return n, nil
-}
-
-func vrStreamerClose(st *snapshot.SnapshotStreamer) error {
-	vrW.streams[st].opened = false
-	return nil
-}
-
-// ---------------------------------------------------------------------------------------------
-// building a world
-
-func vrNewWorld() *vrWorld {
-	w := &vrWorld{tn: &vrTransport{}}
-	vrW = w
-	if verifSymbolic() {
-		w.dir = "/verif-recover"
-		w.files = map[string][]int{}
-		w.wals = map[string][]int{}
-		w.handles = map[*sql.SwappableDB]string{}
-		w.streams = map[*snapshot.SnapshotStreamer]*vrStream{}
-		return w
-	}
-	dir, err := os.MkdirTemp("", "verif-recover-")
-	if err != nil {
-		panic(err)
-	}
-	w.dir = dir
-	return w
-}
-
-func (w *vrWorld) cleanup() {
-	if !verifSymbolic() {
-		os.RemoveAll(w.dir)
-	}
-}
-
-func vrLogger() *log.Logger { return log.New(io.Discard, "", 0) }
-
-// vrExpvarGet stands in for (*expvar.Map).Get in the engine (statistics only).
-var vrStatInt = new(expvar.Int)
-
-func vrExpvarGet(m *expvar.Map, key string) expvar.Var { return vrStatInt }
-
-// vrConf: the peers-file configurations. 0..2 are usable, 3 has no voter.
-func vrConf(k int) raft.Configuration {
-	switch k {
-	case 0:
-		return raft.Configuration{Servers: []raft.Server{{Suffrage: raft.Voter, ID: "n1", Address: "h1:4002"}}}
-	case 1:
-		return raft.Configuration{Servers: []raft.Server{
-			{Suffrage: raft.Nonvoter, ID: "n2", Address: "h2:4002"},
-			{Suffrage: raft.Voter, ID: "n1", Address: "h1:4002"}}}
-	case 2:
-		return raft.Configuration{Servers: []raft.Server{
-			{Suffrage: raft.Voter, ID: "n3", Address: "h3:4002"},
-			{Suffrage: raft.Voter, ID: "n1", Address: "h1:4002"},
-			{Suffrage: raft.Voter, ID: "n2", Address: "h2:4002"}}}
-	}
-	return raft.Configuration{Servers: []raft.Server{{Suffrage: raft.Nonvoter, ID: "n1", Address: "h1:4002"}}}
-}
-
-func vrSameConf(a, b raft.Configuration) bool {
-	if len(a.Servers) != len(b.Servers) {
-		return false
-	}
-	for i := range a.Servers {
-		if a.Servers[i] != b.Servers[i] {
-			return false
-		}
-	}
-	return true
-}
-
-// =============================================================================================
-// C33: manual recovery keeps all applied data.
-// =============================================================================================
-
-type vrScenario struct {
-	w        *vrWorld
-	hasSnap  bool
-	snapIdx  uint64
-	snapTerm uint64
-	n        int // log entries
-	below    int // of which at or below the snapshot index (already part of the snapshot)
-	confKind int
-	conf     raft.Configuration
-}
-
-// vrSetup chooses the situation the node was left in.
-func vrSetup(maxN int, withFailures bool) *vrScenario {
-	w := vrNewWorld()
-	sc := &vrScenario{w: w}
-	sc.n = verifChoice("entries", maxN+1)
-	sc.hasSnap = verifChoice("snapshot", 2) == 1
-	if sc.hasSnap {
-		sc.snapIdx = verifU64("snapIndex")
-		sc.snapTerm = verifU64("snapTerm")
-		verifAssume(sc.snapIdx >= 1)
-		verifAssume(sc.snapIdx <= 1<<60)
-		// trailing logs: some of the entries may still be in the log although the snapshot covers them
-		sc.below = verifChoice("entriesCoveredBySnapshot", sc.n+1)
-		verifAssume(sc.snapIdx >= uint64(sc.below))
-		w.metas = append(w.metas, &raft.SnapshotMeta{ID: "snap-newest", Index: sc.snapIdx, Term: sc.snapTerm, Version: 1})
-		if verifChoice("olderSnapshotToo", 2) == 1 {
-			verifAssume(sc.snapIdx >= 2)
-			w.metas = append(w.metas, &raft.SnapshotMeta{ID: "snap-older", Index: sc.snapIdx - 1, Term: sc.snapTerm, Version: 1})
-		}
-	}
-	if sc.n > 0 {
-		w.first = sc.snapIdx + 1 - uint64(sc.below)
-	}
-	for p := 0; p < sc.n; p++ {
-		t := verifU8(verifName("type", p))
-		verifAssume(t <= uint8(raft.LogConfiguration)) // LogCommand, LogNoop, LogAddPeerDeprecated, LogRemovePeerDeprecated, LogBarrier, LogConfiguration
-		w.ents = append(w.ents, vrEntry{typ: raft.LogType(t), term: verifU64(verifName("term", p)), data: vrData(p)})
-	}
-	sc.confKind = verifChoice("peers", 4)
-	sc.conf = vrConf(sc.confKind)
-	if withFailures {
-		w.fail = verifChoice("failurePoint", vrFailN)
-		w.failAt = w.last()
-	}
-	return sc
-}
-
-// expectation, from the statement: "rebuilds its database from the latest snapshot plus all log
-// entries after it"
-func (sc *vrScenario) wantTags() []int {
-	var want []int
-	if sc.hasSnap {
-		want = append(want, vrMarker)
-	}
-	for p := sc.below; p < sc.n; p++ {
-		if sc.w.ents[p].typ == raft.LogCommand {
-			want = append(want, 1+p)
-		}
-	}
-	return want
-}
-
-func (sc *vrScenario) recover() error {
-	w := sc.w
-	return RecoverNode(w.dir, nil, vrLogger(), &vrLogStore{w}, nil, &vrSnapStore{w}, w.tn, sc.conf)
-}
-
-// failureBites: the chosen failure point is one the recovery has to pass.
-func (sc *vrScenario) failureBites() bool {
-	switch sc.w.fail {
-	case vrFailNone:
-		return false
-	case vrFailOpenSnap:
-		return sc.hasSnap
-	case vrFailGetLog:
-		return sc.n > sc.below
-	}
-	return true
-}
 
 func vrCheck(sc *vrScenario, err error) {
 	w := sc.w
@@ -740,6 +32,9 @@ func vrCheck(sc *vrScenario, err error) {
 	}
 	if sc.failureBites() {
 		verifReach("recovery-failed")
+		if w.fail == vrFailSinkClose {
+			verifReach("sink-close-failed")
+		}
 		verifAssert("C33-failure-reported", err != nil)
 		if w.fail != vrFailDeleteRange {
 			verifAssert("C33-failed-recovery-keeps-the-log", !w.deleted)
@@ -751,6 +46,9 @@ func vrCheck(sc *vrScenario, err error) {
 	// restore of the NEWEST snapshot, nothing else
 	if sc.hasSnap {
 		verifAssert("C33-newest-snapshot-restored", len(w.opened) == 1 && w.opened[0] == "snap-newest")
+		if len(w.metas) > 1 {
+			verifReach("two-snapshots-in-the-store")
+		}
 	} else {
 		verifAssert("C33-newest-snapshot-restored", len(w.opened) == 0)
 	}
@@ -781,6 +79,13 @@ func vrCheck(sc *vrScenario, err error) {
 	if len(want) >= 3 {
 		verifReach("snapshot-and-two-commands-replayed")
 	}
+	cmds := len(want)
+	if sc.hasSnap {
+		cmds--
+	}
+	if sc.n-sc.below > cmds {
+		verifReach("non-command-entry-skipped")
+	}
 	if sc.below > 0 && sc.n > sc.below {
 		verifReach("trailing-entries-not-replayed-again")
 	}
@@ -792,9 +97,22 @@ func vrCheck(sc *vrScenario, err error) {
 	}
 }
 
+// failureBites: the chosen failure point is one the recovery has to pass.
+func (sc *vrScenario) failureBites() bool {
+	switch sc.w.fail {
+	case vrFailNone:
+		return false
+	case vrFailOpenSnap:
+		return sc.hasSnap
+	case vrFailGetLog:
+		return sc.n > sc.below
+	}
+	return true
+}
+
 func vrRun(maxN int, withFailures bool) {
 	verifPanicsAreViolations()
-	sc := vrSetup(maxN, withFailures)
+	sc := vrSetup(maxN, withFailures, -1)
 	defer sc.w.cleanup()
 	err := sc.recover()
 	vrCheck(sc, err)
@@ -802,7 +120,7 @@ func vrRun(maxN int, withFailures bool) {
 
 // VerifC33Recover: every situation, no injected failure.
 func VerifC33Recover() {
-	n := 3
+	n := 2
 	if verifTier() == 1 {
 		n = 4
 	}
@@ -820,11 +138,10 @@ func VerifC33Failures() {
 
 // Vacuity twin: claims the new snapshot never holds a replayed entry.
 func VerifC33Twin() {
-	sc := vrSetup(1, false)
+	sc := vrSetup(1, false, 0)
 	defer sc.w.cleanup()
 	err := sc.recover()
 	verifAssume(err == nil)
-	verifAssume(sc.confKind != 3)
 	got, _ := vrSnapshotTags(sc.w, sc.w.sink.data)
 	for _, t := range got {
 		verifAssert("twin", t == vrMarker)
